@@ -226,6 +226,20 @@ def check(ctx: Ctx) -> None:
                           construct="detokenise does not place the note-on at cur_time with the PITCH field",
                           message=f"time={short(kw.get('time'))} note={short(kw.get('note'))}", file=fd.file, node=c)
 
+    # --- the circle-of-fifths position used for the annotation (exhaustive over pitch classes, as in C20)
+    from ..engines import tables as _tables
+    _t = _tables.Tables(p)
+    _ev = _tables.IntEval(p, _t)
+    badpos = []
+    for a in range(12):
+        pa = _ev.call("CircleOfFifths.get_position", [a])
+        want = [_t.note[n[1]] for n in _t.table("circle_of_fifths_order")].index(a) - 5
+        if pa != want:
+            badpos.append((a, pa, want))
+    ctx.check(not badpos, "PITCH", "get_position(pitch) = index of the pitch class in the circle-of-fifths order, minus 5 (all 12 classes)",
+              function="CircleOfFifths.get_position", construct="circle-of-fifths position of a pitch class is wrong",
+              message=f"(pitch class, got, expected): {badpos[:4]}", file=_t.file, node=p.func("CircleOfFifths.get_position").node)
+
     # --- TPL6 (one clock-relevant part per vocabulary token)
     bad = []
     n_tok = 0
